@@ -19,7 +19,8 @@ def run(prop, tier, seed, replay=None):
         if prop == "C18":
             s2, t2, r2 = rc.model_check(work, "DagStore", ["MC_C18.cfg"], workers=2)
             s3, t3, r3 = rc.model_check(work, "DagStoreConc", ["MC_C18_conc_unique.cfg"], workers=2)
-            states, transitions, runs = states + s2 + s3, transitions + t2 + t3, runs + r2 + r3
+            s4, t4, r4 = rc.model_check(work, "DagNames", ["MC_C18_names_excl.cfg"], workers=2)
+            states, transitions, runs = states + s2 + s3 + s4, transitions + t2 + t3 + t4, runs + r2 + r3 + r4
         scenarios = []
         if replay:
             rp = json.load(open(replay))["replay"]
@@ -138,6 +139,43 @@ def run(prop, tier, seed, replay=None):
                                       {"pair_scenario": next((s for s in pairs if s["scen"] == v["scen"]), None), "first_mismatch": v["rec"]})
             rep.cov["save_pair"] = {"interleavings": len(pairs), "gate_events_validated": pcons, "free_running": stress[0] if stress else None}
             consumed2 += pcons
+            # two creates and a rename aimed at the same name at the same moment (DagNames.tla): TLC-simulated schedules and
+            # two fixed ones through the gates after the existence checks
+            def S(l):
+                return [{"a": x.split()[0], "r": (x.split() + [""])[1]} for x in l]
+            nscs = [{"scen": 910000, "src": "lead", "steps": S(["check c1", "check c2", "act c1", "save", "act c2"])},
+                    {"scen": 910001, "src": "lead", "steps": S(["check r", "check c1", "act c1", "save", "act r"])}]
+            nd = os.path.join(work, "namesim")
+            os.makedirs(nd)
+            r = vp.tlc(nd, "MCDagNames", "MC_C18_names_sim.cfg", workers=1, timeout=600, simulate="num=%d" % (300 if q else 3000),
+                       extra=["-depth", "30", "-seed", str(seed)])
+            seen = set()
+            for obj in vp.parse_prints(r["out"], "BEHAVIOUR"):
+                key = json.dumps(obj["steps"])
+                if key not in seen:
+                    seen.add(key)
+                    nscs.append({"scen": 910002 + len(nscs), "src": "model", "steps": obj["steps"]})
+            shutil.rmtree(nd, ignore_errors=True)
+            nf = os.path.join(work, "names.jsonl")
+            with open(nf, "w") as f:
+                for s in nscs:
+                    f.write(json.dumps(s) + "\n")
+            ntrace = os.path.join(work, "names.ndjson")
+            rc.run_vh(vh, ["savepair", "-names", "-scenarios", nf, "-out", ntrace], env=dict(vp.GOENV, TMPDIR=work), timeout=1200)
+            nod = os.path.join(work, "namesobs")
+            os.makedirs(nod)
+            nv, ncons, _ = vp.observe(nod, "DagNamesTrace", ntrace)
+            for v in nv:
+                if "INFRA" in v["viol"]:
+                    raise vp.Infra("names rig: %s" % json.dumps(v["rec"]))
+                for c in v["viol"]:
+                    if c.startswith("DRIFT"):
+                        rep.drift.append("spec=DagNames %s rec=%s" % (c, json.dumps(v["rec"], sort_keys=True)))
+                    else:
+                        rep.violation({"clause": c, "op": "create-rename-pair", "by": v["rec"].get("r")},
+                                      {"names_scenario": next((s for s in nscs if s["scen"] == v["scen"]), None), "first_mismatch": v["rec"], "before": v["before"]})
+            rep.cov["same_target_requests"] = {"schedules_replayed": len(nscs), "gate_events_validated": ncons}
+            consumed2 += ncons
         some = list(by_id.values())
         samples = [some[0], some[-1]] if some else []
         rep.cov.update({"states": states, "transitions": transitions, "model_checking_runs": runs,
